@@ -922,7 +922,8 @@ impl Engine for Conc {
         // of it. Whatever a library does differently once a list is that long - a scan outside the
         // mutation lock with a re-check of "the new part" only, an index built lazily, a chunked
         // walk - has to survive a removal and an addition landing inside its window.
-        let template6 = !template && !template2 && !template3 && rng.chance(1, if tier == Tier::Quick { 4000 } else { 2500 });
+        let template6 = !template && !template2 && !template3 && rng.chance(1, if tier == Tier::Quick { 2500 } else { 2000 });
+        let mut window6 = false;
         if template6 {
             let spokes = *rng.pick(&[3usize, 8, 40, 400]);
             let free = rng.range(1, 3);
@@ -934,11 +935,43 @@ impl Engine for Conc {
             for i in 0..total {
                 next_edge += 1;
                 let x = 1 + if i < spokes { i } else { rng.below(spokes) };
-                let (a, b) = if out_only || rng.chance(9, 10) { (0, x) } else { (x, 0) };
-                initial.push((a, b, next_edge));
-                m.edges.push(crate::model::MEdge { val: next_edge, u: a, v: b });
+                initial.push((0, x, next_edge));
+                m.edges.push(crate::model::MEdge { val: next_edge, u: 0, v: x });
             }
-            for _ in 0..nt {
+            if !out_only {
+                for _ in 0..rng.range(1, 300) {
+                    next_edge += 1;
+                    let x = 1 + rng.below(spokes);
+                    initial.push((x, 0, next_edge));
+                    m.edges.push(crate::model::MEdge { val: next_edge, u: x, v: 0 });
+                }
+            }
+            window6 = rng.coin();
+            if window6 {
+                // a window placed on purpose: task 0 makes ONE call that looks the hub's list up
+                // and then acts on what it saw; task 1 removes an entry and adds one; the
+                // scheduler pauses task 0 at a sampled early decision and lets task 1 run through
+                let f = spokes + 1 + rng.below(free);
+                let x = rng.range(1, spokes);
+                next_edge += 3;
+                tasks.push(vec![match rng.below(8) {
+                    0..=4 => Op::TryConnect { u: 0, v: f, e: next_edge, h: Prov::Own },
+                    5 => Op::TryConnect { u: f, v: 0, e: next_edge, h: Prov::Own },
+                    6 => Op::Disconnect { u: 0, k: x, h: Prov::Own },
+                    _ => Op::IsConnected { u: 0, k: f },
+                }]);
+                let first = match rng.below(4) {
+                    0..=2 => Op::Disconnect { u: 0, k: rng.range(1, spokes), h: Prov::Own },
+                    _ => Op::Isolate { u: rng.range(1, spokes), h: Prov::Own },
+                };
+                let second = if rng.coin() {
+                    Op::TryConnect { u: 0, v: f, e: next_edge - 1, h: Prov::Own }
+                } else {
+                    Op::Connect { u: 0, v: f, e: next_edge - 1, h: Prov::Own }
+                };
+                tasks.push(vec![first, second]);
+            }
+            for _ in 0..(if window6 { nt.saturating_sub(2).min(1) } else { nt }) {
                 let mut w = Vec::new();
                 for _ in 0..rng.range(1, 3) {
                     let x = rng.range(1, spokes);
@@ -1039,6 +1072,7 @@ impl Engine for Conc {
         let tiny = !template3 && !template4 && tasks.len() <= 3 && tasks.iter().map(|t| t.len()).sum::<usize>() <= 3;
         let kind = match rng.below(10) {
             _ if tiny && rng.chance(1, if tier == Tier::Quick { 150 } else { 60 }) => PolicyKind::Enumerate,
+            _ if window6 => PolicyKind::PauseAt { at: rng.range(2, 9) as u32 },
             _ if template3 => if rng.coin() { PolicyKind::Uniform } else { PolicyKind::Sticky { num: 50 } },
             0..=3 => PolicyKind::Uniform,
             4..=5 => PolicyKind::Pct { d: rng.range(1, 3) as u32 },
@@ -1077,7 +1111,9 @@ impl Engine for Conc {
         let mut out = Vec::new();
         let fresh = |mut c: ConcSc| {
             c.forced = None;
-            c.tries = 120;
+            // (a placed pause leaves the schedule little freedom, and a scenario with a list of
+            // thousands of entries is expensive to re-run: few fresh schedules per candidate)
+            c.tries = if matches!(c.policy.kind, PolicyKind::PauseAt { .. }) || c.initial.len() > 1000 { 8 } else { 120 };
             if c.policy.kind == PolicyKind::Enumerate {
                 c.policy.kind = PolicyKind::Uniform;
             }
